@@ -346,7 +346,7 @@ class Piece:
         clauses = {'requires': [], 'ensures': [], 'decreases': []}
         for kind, name, expr, props in self.contract:
             clauses[kind].append((name, expr))
-        if twin and (clauses['requires'] or clauses['ensures']):
+        if twin and (clauses['requires'] or clauses['ensures']) and not self.is_trusted_body():
             clauses['ensures'].append(('VACUITY', 'false'))
         ctext = ''
         for kind in ('requires', 'ensures', 'decreases'):
@@ -413,6 +413,9 @@ class Piece:
         if self._sig_extra:
             out = self._sig_extra + '\n' + out
         return out
+
+    def is_trusted_body(self):
+        return bool(self._sig_extra and 'external_body' in self._sig_extra)
 
     def extraction_diff(self):
         a = self.orig.split('\n')
@@ -815,7 +818,7 @@ def run_unit(unit, workdir, tier='quick', seeds=(), keep=True):
         open(tpath, 'w').write(twin)
         tres = run_verus(tpath, workdir, rlimit=unit.rlimit, edition2024=unit.edition2024)
         ta = analyse(unit, twin, tres, twin=True)
-        contracted = [p.full_label() for p in unit.pieces.values() if p.kind == 'fn' and any(k in ('requires', 'ensures') for k, *_ in p.contract)]
+        contracted = [p.full_label() for p in unit.pieces.values() if p.kind == 'fn' and not p.is_trusted_body() and any(k in ('requires', 'ensures') for k, *_ in p.contract)]
         refuted = set()
         for f in ta['failures']:
             if f['obligation'].endswith('#VACUITY'):
